@@ -20,7 +20,6 @@ ACCEPT_REARM = os.environ.get("VERIF_C07_ACCEPT_REARM", "1") == "1"
 # with notes/C07_fix_pipe_connect_ealready.diff (UV_EALREADY).  Flip the default when the patch is committed.
 PIPE_CONNECT_EALREADY = os.environ.get("VERIF_C07_PIPE_EALREADY", "0") == "1"
 K_LOST = "pipe_connect_overwrites_pending_request"
-K_RETRY = "pipe_connect_retry_not_readable_writable"
 
 
 # --------------------------------------------------------------------------
@@ -641,8 +640,8 @@ def connect_monitor(case, out):
                 why = "connect callback of request %d reported status 0 but the stream is %sreadable and %swritable" \
                       % (r, "" if f[4][0] == "1" else "not ", "" if f[4][1] == "1" else "not ")
                 if kind == "p" and any(k2 == "c" and int(f2[1]) != 0 for k2, f2 in ents[:i]):
-                    return K_RETRY, why + " (uv_pipe_connect retried on the handle of a failed attempt: " \
-                                          "uv__stream_open runs only when the call created the socket)"
+                    why += " (uv_pipe_connect retried on the handle of a failed attempt; was the finding " \
+                           "pipe_connect_retry_not_readable_writable until /repo ff67af1)"
                 return None, why
             if st == 0 and gp != 0:
                 return None, "connect callback of request %d reported status 0 but the socket is not connected " \
